@@ -292,9 +292,15 @@ theorem pairwise_head_lt_getLast (x : Rat) (rest : List Rat) (hne : rest ≠ [])
 theorem sumAssertOk_of_sum (a b : Rat) (ws : List Rat) (hab : a ≤ b) (h : sumR (dropEnds ws) = b - a) :
     sumAssertOk a b ws = true := by
   have t : (0 : Rat) ≤ tol12 := by unfold tol12; norm_num
-  have : 0 ≤ (b - a) * tol12 := mul_nonneg (by linarith) t
-  simp only [sumAssertOk, h, Bool.and_eq_true, decide_eq_true_eq]
-  constructor <;> nlinarith
+  have hm : 0 ≤ maxR (b - a) (sumAbs ws) := by
+    unfold maxR
+    split_ifs with hlt
+    · linarith
+    · linarith
+  simp only [sumAssertOk, h, sub_self, decide_eq_true_eq]
+  have : absR 0 = 0 := by simp [absR]
+  rw [this]
+  exact mul_nonneg t hm
 
 theorem getLast_of_getLast? (l : List Rat) (h : l ≠ []) (b : Rat) (hb : l.getLast? = some b) : l.getLast h = b := by
   rw [List.getLast?_eq_some_getLast h] at hb; exact Option.some.inj hb
